@@ -140,6 +140,74 @@ def build(fns):
 
 
 
+def build_dry_run(fns):
+    """the shard upload task: in a dry run nothing reaches the store or the shard cache (no upload, no export, no registration)"""
+    cands = [f for n, f in fns.items() if re.search(r"upload_and_register_session_shards::\{closure#0\}::\{closure#\d+\}$", n)]
+    cands = [f for f in cands if modeb.CFG(f).blocks_calling(r"export_with_expiration$")]
+    if len(cands) != 1:
+        raise LookupError("shard upload task not found (%d candidates)" % len(cands))
+    f = cands[0]
+    g = modeb.CFG(f)
+    sc = smt.Script("c16_dry_run_shard_task")
+    places = f.debug.get("dry_run", [])
+    edges_true = []
+    for b in g.nodes:
+        t = g.term[b]
+        if t["kind"] != "switch":
+            continue
+        opnd = re.sub(r"^(move|copy) ", "", t["operand"].strip())
+        src_place = None
+        for st in f.blocks[b][0]:
+            m = re.match(r"(.+?) = copy (.+)$", st)
+            if m and m.group(1).strip() == opnd:
+                src_place = m.group(2).strip()
+        if (src_place in places) or (opnd in places):
+            if t["otherwise"]:
+                edges_true.append((b, t["otherwise"]))
+    eff = g.blocks_calling(r"upload_shard$") + g.blocks_calling(r"export_with_expiration$") + g.blocks_calling(r"register_shards$")
+    if not edges_true:
+        sc.query("shard task: the dry-run flag is branched on before anything is sent or cached", ["true"])
+    else:
+        modeb.no_path_query(g, sc, "shard task: in a dry run the shard is neither uploaded, nor exported to the cache directory, nor registered", [t_ for _, t_ in edges_true], eff, [])
+        modeb.no_path_query(g, sc, "shard task: upload / export / registration are reachable only past the dry-run test", [g.entry], eff, [b_ for b_, _ in edges_true])
+    modeb.no_path_query(g, sc, "witness: the shard is uploaded in a real run", [g.entry], g.blocks_calling(r"upload_shard$"), [], expect="sat", kind="witness")
+    return [sc]
+
+
+def build_session_dir(fns):
+    """SessionShardInterface::new: the session's shard manager works in a directory of its own (a fresh TempDir that is removed
+    with the session), never directly in the shared session directory: shards staged by a failed session do not survive it"""
+    f = mir.find_fn(fns, r"shard_interface::<impl at [^>]*>::new::\{closure#0\}$")
+    g = modeb.CFG(f)
+    sc = smt.Script("c16_session_directory")
+    mk = g.blocks_calling(r"ShardFileManager::new_in_session_directory")
+    td = g.blocks_calling(r"TempDir::new_in")
+    tp = g.blocks_calling(r"TempDir::path$")
+    if not mk:
+        raise LookupError("SessionShardInterface::new no longer creates a session shard manager")
+    modeb.no_path_query(g, sc, "the session shard manager is created only after a fresh temporary directory was made for the session", [g.entry], mk, td)
+    modeb.no_path_query(g, sc, "the directory handed to the session shard manager is obtained from that temporary directory", [g.entry], mk, tp)
+    # provenance of the argument (Mode A up to the call)
+    from mirsym import symex
+    s = symex.Sym(f, prefix="sd.", models=symex.STD_MODELS, max_visits=1)
+    n = 0
+    for i, p in enumerate(s.run(g.entry, stop_at_call=r"ShardFileManager::new_in_session_directory", max_paths=2000)):
+        if p.end != "stop":
+            continue
+        n += 1
+        t = mir.parse_term(f.blocks[p.trace[-1]][1])
+        a = s.operand(p, t["args"][0])[0]
+        tpv = [p.store.get(mir.parse_term(f.blocks[e[2]][1])["dest"].strip()) for e in p.events if re.search(r"TempDir::path$", e[0])]
+        ok = any(v is not None and v.t == a.t for v in tpv)
+        sc.query("the session shard manager's directory is the temporary directory's path [path %d]" % i, ["false"] if ok else ["true"])
+        if n >= 4:
+            break
+    if not n:
+        raise LookupError("no path reaches new_in_session_directory")
+    modeb.no_path_query(g, sc, "witness: the session shard manager is created", [g.entry], mk, [], expect="sat", kind="witness")
+    return [sc]
+
+
 def _native(testfile, testfn, tag):
     def run(model, fnd, prop):
         env = base_env()
@@ -160,4 +228,10 @@ _F = ["data::file_upload_session::FileUploadSession::{finalize_impl, register_ne
       "data::deduplication_interface::UploadSessionDataManager::register_new_xorb",
       "data::shard_interface::SessionShardInterface::upload_and_register_session_shards (+ shard upload task)"]
 SMT = [Q("c16_order_and_errors", "upload ordering and error propagation of the session", "data", build, functions=_F, bounds="all CFG paths",
-         solvers=("z3", "cvc5-bv"), replay=_native("c16_xorb_put_failure_reported", None, "C16"))]
+         solvers=("z3", "cvc5-bv"), replay=_native("c16_xorb_put_failure_reported", None, "C16")),
+       Q("c16_dry_run", "a dry run sends nothing to the store and leaves nothing in the shard cache (Mode B)", "data", build_dry_run,
+         functions=["data::shard_interface::SessionShardInterface::upload_and_register_session_shards (spawned task)"], bounds="all CFG paths", solvers=("z3", "cvc5-bv"),
+         replay=native_test("c16_dry_run_native", "C16 violated", "native replay passes: a dry run leaves no shard behind and is not deduplicated against")),
+       Q("c16_session_directory", "the session's staged shards live in a directory that dies with the session", "data", build_session_dir,
+         functions=["data::shard_interface::SessionShardInterface::new"], bounds="all CFG paths; provenance of the directory argument", solvers=("z3", "cvc5-bv"),
+         replay=native_test("c16_failed_session_leftovers", "C16 violated", "native replay passes: a failed session leaves nothing a later session builds on"))]
